@@ -257,6 +257,7 @@ type rawReq struct {
 	Body        string         `json:"body_class"` // ok | bad | null | nonobject | badquerystring
 	RejectParam int            `json:"reject_param"`
 	RejectCtx   int            `json:"reject_ctx"`
+	BadPart     string         `json:"bad_part,omitempty"` // GET with body class "bad": what is malformed - "" (the variables parameter) or a value for the extensions parameter
 }
 
 func (q rawReq) build(docs []docInfo) *http.Request {
@@ -284,6 +285,10 @@ func (q rawReq) build(docs []docInfo) *http.Request {
 		raw := v.Encode()
 		switch q.Body {
 		case "bad":
+			if q.BadPart != "" {
+				raw += "&extensions=" + url.QueryEscape(q.BadPart)
+				break
+			}
 			raw += "&variables=%7Bbad"
 			if q.Vars != nil {
 				raw = strings.Replace(raw, "variables=", "variables=%7Bbad&x=", 1)
@@ -653,6 +658,9 @@ func randReq(r *gen.Rand, docs []docInfo, nExts int, malformedRate int) rawReq {
 		switch q.Transport {
 		case "get":
 			q.Body = gen.Pick(r, []string{"bad", "badquerystring"})
+			if q.Body == "bad" && r.Bool() {
+				q.BadPart = gen.Pick(r, []string{"notjson", "[1]", `"x"`, "1", `{"persistedQuery":`})
+			}
 		case "post", "formjson":
 			q.Body = gen.Pick(r, []string{"bad", "null", "nonobject", "typeerror"})
 			if q.Transport == "formjson" && q.Body == "typeerror" {
